@@ -21,6 +21,7 @@ Offers ==
       [] s.pc = "disc" -> Cmd("setSourceRouteDiscoveryMode", {"-"}, "write")
       [] s.pc = "pol" -> Cmd("setPolicy", {"ok", "bad"}, "write") \cup Cmd("networkState", {"joined"}, "read")
       [] s.pc = "load" -> Cmd("getNetworkParameters", {"-"}, "read") \cup {[a |-> "reg", t |-> 0], [a |-> "set", t |-> 0]}
+      [] s.pc = "mid" -> {[a |-> "reg", t |-> 0], [a |-> "set", t |-> 0]}
       [] s.pc = "mcast" -> Cmd("getMulticastTableEntry", {"-"}, "read") \cup {[a |-> "end", out |-> "ok", running |-> TRUE, cbs |-> 1, t |-> 0]}
       [] s.pc = "raise" -> {[a |-> "end", out |-> s.out, running |-> s.running, cbs |-> s.cbs, t |-> 0]}
       [] OTHER -> {}
